@@ -17,6 +17,8 @@ EXTENDS SigmaStr, Encoding, Cidr
 V(t) == [t |-> t, parts |-> <<>>, num |-> <<0, 1>>, b |-> FALSE, s |-> <<>>, vals |-> <<>>, flags |-> <<>>, phs |-> <<>>]
 VStr(t, parts, phs) == [V(t) EXCEPT !.parts = parts, !.phs = phs]        \* t \in {"str","cased"}
 VNum(n) == [V("num") EXCEPT !.num = n]
+VBigNum(digits) == [V("bignum") EXCEPT !.s = digits]
+VCmpBig(op, digits) == [V("cmp") EXCEPT !.s = op, !.parts = digits]
 VBool(b) == [V("bool") EXCEPT !.b = b]
 VNull == V("null")
 VRe(text, flags, phs) == [V("re") EXCEPT !.s = text, !.flags = flags, !.phs = phs]
@@ -219,11 +221,13 @@ ValueMod(m, v, applied, hasField, raw) ==
       \* a timestamp part is a number in the object model; whether a further numeric modifier
       \* may follow it is not defined by the specification
       [] m \in CmpOps ->
-           (IF v.t = "tspart" THEN UNSPEC ELSE IF v.t # "num" THEN REJECT ELSE OK(<<VCmp(m, v.num)>>))
+           (IF v.t = "tspart" THEN UNSPEC ELSE IF v.t = "bignum" THEN OK(<<VCmpBig(m, v.s)>>)
+            ELSE IF v.t # "num" THEN REJECT ELSE OK(<<VCmp(m, v.num)>>))
       [] m \in TsUnits ->
            (IF v.t = "tspart" THEN UNSPEC
+            ELSE IF v.t = "bignum" THEN UNSPEC        \* no timestamp has such a part
             ELSE IF v.t # "num" THEN REJECT
-            ELSE IF ~IsIntNum(v.num) THEN UNSPEC
+            ELSE IF ~IsIntNum(v.num) THEN REJECT      \* a part of a timestamp is a whole number; cutting 5.7 down to 5 would change the content
             ELSE OK(<<VTs(m, v.num)>>))
 
 \* a value modifier on a value that may be an expansion: members are modified one by one and
@@ -260,11 +264,12 @@ MRun(st, chain, hasField, raws) ==
     IF chain = <<>> THEN st ELSE MRun(MStep(st, Head(chain), hasField, raws), Tail(chain), hasField, raws)
 
 \* ---- source values -------------------------------------------------------
-\* src == [t |-> "s"|"n"|"b"|"null", s |-> code points, num |-> <<n, d>>, b |-> BOOLEAN]
+\* src == [t |-> "s"|"n"|"N"|"b"|"null", s |-> code points, num |-> <<n, d>>, b |-> BOOLEAN]
 \* With `re` anywhere in the chain, strings are taken verbatim (no wildcard/escape parsing).
 InitVal(src, hasRe) ==
     CASE src.t = "s" -> VStr("str", IF hasRe THEN src.s ELSE ParseStr(src.s), <<>>)
       [] src.t = "n" -> VNum(src.num)
+      [] src.t = "N" -> VBigNum(src.s)      \* a whole number beyond TLC's integers, kept as its decimal text
       [] src.t = "b" -> VBool(src.b)
       [] OTHER -> VNull
 RawText(src) == IF src.t = "s" THEN src.s ELSE <<>>
